@@ -427,8 +427,21 @@ theorem afterContracts_isSome (s : LState) (log : Bool) (b : Nat) (R : List (Add
   show (bget (s.replaceAll log b R).classHash a).isSome = _
   exact replaceAll_isSome s log b R hR a
 
-theorem legacy_revert_succeeds (d : Diff) (rest : List Diff) (s : LState) (hinv : LInv (d :: rest) s)
-    (hv : Valid rest d) : ∃ s', s.revert rest.length d = .ok s' := by
+theorem dedupFirst_of_nodup (l seen : List CHash) (hnd : l.Nodup) (h : ∀ c ∈ l, c ∉ seen) : dedupFirst seen l = l := by
+  induction l generalizing seen with
+  | nil => rfl
+  | cons c r ih =>
+    simp only [List.nodup_cons] at hnd
+    unfold dedupFirst
+    simp only [h c List.mem_cons_self, if_false]
+    rw [ih (c :: seen) hnd.2 (by
+      intro x hx hm
+      rcases List.mem_cons.mp hm with e | hm'
+      · subst e; exact hnd.1 hx
+      · exact h x (List.mem_cons_of_mem _ hx) hm')]
+
+theorem legacy_revert_succeeds (fix : Bool) (d : Diff) (rest : List Diff) (s : LState) (hinv : LInv (d :: rest) s)
+    (hv : Valid rest d) : ∃ s', s.revert fix rest.length d = .ok s' := by
   have hwf := hv.wf
   have hc : ∀ a, isSystem a = false → ((absOf (d :: rest)).dep a).isSome = true → (bget s.classHash a).isSome = true := by
     intro a hns h
@@ -464,8 +477,12 @@ theorem legacy_revert_succeeds (d : Diff) (rest : List Diff) (s : LState) (hinv 
         have := logged_valueAt_isSome d rest (.classHash p.1) (by simpa [logged] using alook_isSome_of_mem d.replaced p hp) hb
         simp [Option.isNone_iff_eq_none, Option.isSome_iff_ne_none.mp this]
       simp [this]
+  have hlist : (if fix = true then dedupFirst [] d.classHashes else d.classHashes) = d.classHashes := by
+    cases fix
+    · rfl
+    · exact dedupFirst_of_nodup d.classHashes [] hwf.declNodup (by intro c _ hm; cases hm)
   unfold LState.revert
-  simp only [hcl, gN, gR, Bool.false_eq_true, if_false]
+  simp only [hlist, hcl, gN, gR, Bool.false_eq_true, if_false]
   -- the reverse diff is applied
   have hkR : ∀ (f : Addr → CHash → CHash), ((d.replaced.map (fun p => (p.1, f p.1 p.2))).map (·.1)) = d.replaced.map (·.1) :=
     fun f => map_map_fst d.replaced f
